@@ -184,7 +184,8 @@ theorem C09_add_step (tx : Tx) (k : Bytes) (cur n : Nat) (hb : cur + n ≤ 92233
     atoiOpt_natToBytes cur (by omega)]
   have e4 : ((0x2b : UInt8) == 0x2b) = true := by decide
   simp only [e4, if_true]
-  have e5 : intToBytes ((cur : Int) + (n : Int)) = natToBytes (cur + n) := by
+  have e5 : intToBytes (wrap64 ((cur : Int) + (n : Int))) = natToBytes (cur + n) := by
+    rw [wrap64_id _ (by omega) (by omega)]
     unfold intToBytes
     have : ¬ ((cur : Int) + (n : Int) < 0) := by omega
     simp only [this, if_false]
